@@ -3,6 +3,8 @@ import CkbVerif.Driver.C15
 import CkbVerif.Model.Compact
 import CkbVerif.Model.Frame
 import CkbVerif.Model.Proto
+import CkbVerif.Model.Alert
+import CkbVerif.Model.LightGuards
 
 /-! Line-protocol driver for C16 (protocols: harness/hcore/src/c16.rs, harness/hnode/src/c16.rs).
 
@@ -14,12 +16,22 @@ Stream `recv` (the real `Synchronizer::received` / `Relayer::received`, harness/
   peer <k>                   -> ok      (the gate is per message: which peer sends it does not matter)
 Stream `proto` (filter / light-client / time handlers, discovery / identify / ping decoders, harness/hnode/src/c16_proto.rs):
   px filter <hex>            -> pass <id> | malformed
-  px light <hex>             -> pass <id> [toomany] | malformed     (`toomany`: a GetLastStateProof refused as "too many samples")
+  lchain <hex32,..>          -> ok          the main-chain block hashes by number (after every `case` line)
+  px light <hex>             -> pass <id> | malformed; a GetLastStateProof: pass <id> <toomany | start-above-last | unsorted | boundary | last=<n>>
+       the guard of `GetLastStateProofProcess::execute` that refuses it (`Model/LightGuards.lean`), else the number of
+       the last header of the reply (the tip when `last_hash` is not on the main chain)
   px time <hex>              -> pass | malformed
   px disc <hex>              -> none | getnodes <version> <count> <port|-> <flags> | nodes <0|1> <flags,..|-> | nodes-addr
   px ident <hex>             -> none | ok
-  px idv <hex>               -> none | some <flags> | utf8?
+  px idv <hex>               -> none | some <flags>     (`Identify::verify`, the UTF-8 tests included)
   px ping <hex>              -> none | ping <nonce> | pong <nonce>
+Stream `alert` (the real `AlertRelayer::received` / `connected`, harness/n16/src/c16_alert.rs, `Model/Alert.lean`):
+  cfg <m> <key indexes>      -> ok          a new relayer (threshold, configured keys), no connected peers
+  peers <peer list>          -> ok          `connected_peers()` from now on
+  now <ms>                   -> ok
+  recv <peer> <hex> <classes> -> <malformed | not-utf8 | ignored | badsig <overflow|notenough|threshold <n>> | relay <peers|->> recv=<ids> noticed=<ids|?>
+       classes: per signature item `k<j>` (signed by key j over this alert's hash) or `x`; `-` = none
+  conn <peer>                -> sent <ids> recv=<ids> noticed=<ids|?>
 Stream `cb`:
   recon root=<ids|bad> ph=<ok|bad> eh=<ok|bad> sids=<ids> pre=<i:t;…> recv=<ids> uncles=<n> upeer=<idx list> ext=<0|1> props=<n>
        -> verify-err <kind> | block txs=<ids> hdr=<same|reset> | missing txs=<idx> uncles=<idx> | collided | unmatched
@@ -87,7 +99,7 @@ def stepWire (ts : List String) : String :=
 /-- the network identifier the harness asks `Identify::verify` with -/
 def netName : List UInt8 := "ckb_verif".toUTF8.toList
 
-def stepProto (ts : List String) : String :=
+def stepProto (chain : List (List UInt8)) (ts : List String) : String :=
   match ts with
   | ["px", which, hx] =>
     match C15.unhex hx with
@@ -101,10 +113,16 @@ def stepProto (ts : List String) : String :=
         match CkbVerif.Proto.gateLight bs with
         | .pass id =>
           if id = CkbVerif.Gen.Schemas.U.LightClientMessage.GetLastStateProof then
-            match CkbVerif.Proto.lightTooMany bs with
-            | some true => s!"pass {id} toomany"
-            | some false => s!"pass {id}"
-            | none => s!"pass {id} overflow"
+            match CkbVerif.Proto.lightTooMany bs, CkbVerif.Proto.glspGuards chain bs with
+            | none, _ => s!"pass {id} overflow"
+            | _, none => s!"pass {id} overflow"
+            | some true, _ => s!"pass {id} toomany"
+            | some false, some .tooMany => s!"pass {id} toomany?"
+            | some false, some .tipState => s!"pass {id} last={chain.length - 1}"
+            | some false, some .startAboveLast => s!"pass {id} start-above-last"
+            | some false, some .unsorted => s!"pass {id} unsorted"
+            | some false, some .boundary => s!"pass {id} boundary"
+            | some false, some (.proceed l) => s!"pass {id} last={l}"
           else s!"pass {id}"
         | .malformed => "malformed"
       else if which = "time" then
@@ -129,10 +147,10 @@ def stepProto (ts : List String) : String :=
       else if which = "ident" then
         if verify true CkbVerif.Gen.Schemas.S.IdentifyMessage bs then "ok" else "none"
       else if which = "idv" then
-        match CkbVerif.Proto.identifyVerify netName bs with
+        match CkbVerif.Alert.identifyVerifyFull netName bs with
         | .none => "none"
         | .some f => s!"some {f}"
-        | .undecided => "utf8?"
+        | .undecided => "utf8?"  -- not reachable: `identify_verify_decided`
       else if which = "ping" then
         match CkbVerif.Proto.pingDecode bs with
         | .none => "none"
@@ -382,12 +400,84 @@ def stepCodec (st : CodecSt) (ts : List String) : CodecSt × String :=
     | _, _ => (st, "bad-op")
   | _ => (st, "bad-op")
 
+/-! ### stream `alert` -/
+
+structure AlertSt where
+  st : CkbVerif.Alert.St := {}
+  m : Nat := 1
+  pks : List Nat := [0]
+  peers : List Nat := []
+  now : Nat := 1000000
+  /-- a version bound outside the modelled fragment of semver was accepted: `noticed` is not compared any more -/
+  unknown : Bool := false
+
+/-- the client version the harness starts the relayer with -/
+def alertClient : Nat × Nat × Nat := (0, 105, 0)
+
+def sortNat (l : List Nat) : List Nat := l.mergeSort (fun a b => decide (a ≤ b))
+
+def alertState (s : AlertSt) : String :=
+  let ids := sortNat (s.st.received.map (·.id))
+  let noticed := if s.unknown then "?" else showNatList (s.st.noticed.map (·.id))
+  s!"recv={showNatList ids} noticed={noticed}"
+
+def parseClasses (s : String) : Option (List (Option Nat)) :=
+  if s = "-" then some [] else
+  (s.splitOn ",").mapM fun c =>
+    if c = "x" then some none
+    else if c.startsWith "k" then (parseNat? (c.drop 1).toString).map some
+    else none
+
+def stepAlert (s : AlertSt) (ts : List String) : AlertSt × String :=
+  match ts with
+  | ["cfg", m, keys] =>
+    match parseNat? m, parseNatList? keys with
+    | some m, some ks => ({ s with st := {}, m := m, pks := ks, peers := [], unknown := false }, "ok")
+    | _, _ => (s, "bad-op")
+  | ["peers", ps] =>
+    match parseNatList? ps with
+    | some ps => ({ s with peers := ps }, "ok")
+    | none => (s, "bad-op")
+  | ["now", t] =>
+    match parseNat? t with
+    | some t => ({ s with now := t }, "ok")
+    | none => (s, "bad-op")
+  | ["recv", peer, hx, cls] =>
+    match parseNat? peer, C15.unhex hx, parseClasses cls with
+    | some peer, some bs, some cls =>
+      let eff := CkbVerif.Alert.versionEffective alertClient bs
+      let (st', v) := CkbVerif.Alert.received s.m s.pks s.st peer s.peers bs cls (eff.getD true)
+      let accepted := match v with | .relay _ => true | _ => false
+      let s' := { s with st := st', unknown := s.unknown || (accepted && eff.isNone) }
+      let vs := match v with
+        | .malformed => "malformed"
+        | .notUtf8 => "not-utf8"
+        | .ignored => "ignored"
+        | .badSig .sigCountOverflow => "badsig overflow"
+        | .badSig .sigNotEnough => "badsig notenough"
+        | .badSig (.threshold n) => s!"badsig threshold {n}"
+        | .relay to => s!"relay {showNatList to}"
+      (s', s!"{vs} {alertState s'}")
+    | _, _, _ => (s, "bad-op")
+  | ["conn", _peer] =>
+    let (st', sent) := CkbVerif.Alert.connected s.st s.now
+    let s' := { s with st := st' }
+    (s', s!"sent {showNatList (sortNat (sent.map (·.id)))} {alertState s'}")
+  | _ => (s, "bad-op")
+
 def main (args : List String) : IO UInt32 :=
   match args with
   | ["codec"] => runLines ({} : CodecSt) stepCodec
   | ["cb"] => runLines () (fun _ ts => ((), stepCb ts))
   | ["frame"] => runLines () (fun _ ts => ((), stepFrame ts))
-  | ["proto"] => runLines () (fun _ ts => ((), stepProto ts))
+  | ["proto"] => runLines ([] : List (List UInt8)) (fun chain ts =>
+      match ts with
+      | ["lchain", hs] =>
+        match (hs.splitOn ",").mapM C15.unhex with
+        | some c => (c, "ok")
+        | none => (chain, "bad-op")
+      | _ => (chain, stepProto chain ts))
+  | ["alert"] => runLines ({} : AlertSt) stepAlert
   | _ => runLines () (fun _ ts => ((), stepWire ts))
 
 end CkbVerif.Driver.C16
